@@ -421,6 +421,21 @@ def _check_type_requirements_for_field(
                 ]
             )
             return
+        elif element_size % type_definition.addressable_unit != 0:
+            # The field's size is not known until run time, but it is a whole
+            # number of bytes: `1 [+n]  UInt:3  x` can never fit exactly.
+            errors.append(
+                [
+                    error.error(
+                        source_file_name,
+                        type_ir.source_location,
+                        "Fixed-size {} requires {} bits, which is not a whole "
+                        "number of bytes; it cannot be placed in a field of a "
+                        "`struct`.".format(_render_type(type_ir, ir), element_size),
+                    )
+                ]
+            )
+            return
 
     # If we're here, then field/type sizes are consistent.
     if element_size is None and field_is_atomic and field_min_size == field_max_size:
